@@ -206,6 +206,68 @@ def classify(pid, events, line):
     return None
 
 
+MODEL_OPS = {("Compact", "l0"): "MoveL0", ("Compact", "ingest-keep"): "IngestMerge", ("Compact", "ingest-drain"): "IngestDrain",
+             ("Compact", "regular"): "CompactL1"}
+
+
+def impl_trace(sched, events):
+    """Projects one executed schedule onto Engine.tla's vocabulary for implementation-level validation
+    (EngineTrace.tla). Returns None when the schedule uses something the model abstracts away (value-log
+    GC rewrites, transactional or concurrent writes, rotation of an empty memtable)."""
+    if sched["cfg"].get("vlog") or sched.get("txn") or sched.get("vmap"):
+        return None
+    lvl = BOTTOM if sched.get("bottom") else 1
+    out, i, dirty = [], 0, False
+    groups, cur = [], None
+    for ev in events:                       # one group per executed operation: the op event + the reads after it
+        if ev["e"] in ("Set", "Del", "Maint"):
+            cur = {"op": ev, "gets": []}; groups.append(cur)
+        elif ev["e"] == "Get" and cur is not None:
+            cur["gets"].append(ev)
+        else:
+            return None
+    if len(groups) != len(sched["ops"]):
+        return None
+    for op, g in zip(sched["ops"], groups):
+        e = g["op"]
+        if op["op"] in ("Set", "Del"):
+            if not e.get("ok"):
+                return None
+            rec = {"e": op["op"], "k": int(op["k"][1:]), "v": re.sub(r"\d+$", "", op.get("v", "")) or "x"}
+            dirty = True
+        elif op["op"] == "Rotate":
+            if not dirty:
+                return None
+            rec, dirty = {"e": "Rotate"}, False
+        elif op["op"] == "Flush":
+            rec = {"e": "Flush", "done": not e.get("noop", False)}
+        elif op["op"] == "Compact":
+            rec = {"e": MODEL_OPS[("Compact", op["kind"])], "done": e.get("res") == "done"}
+            if e.get("res") not in ("done", "nofill"):
+                return None
+        elif op["op"] == "Reopen":
+            rec = {"e": "Reopen"}
+        else:
+            return None                      # GC, ParSet, ...
+        sig = []
+        for gk in g["gets"]:
+            seq, ing, m1, m2 = [], [], [], []
+            for s in gk.get("src") or []:
+                v = "del" if s["v"] == "TOMB" else re.sub(r"\d+$", "", s["v"])
+                if s["kind"] in ("mem", "imm", "l0"):
+                    seq.append([s["kind"], v])
+                elif s["level"] == lvl:
+                    (ing if s["kind"] == "ingest" else m1).append(v)
+                else:
+                    m2.append(v)             # any other level is "below": the model's second main run
+            sig.append({"key": int(gk["k"][1:]), "seq": seq, "ing": ing, "m1": m1, "m2": m2})
+        if sorted(x["key"] for x in sig) != [1, 2, 3]:
+            return None
+        rec["sig"] = sig
+        out.append(rec)
+    return out
+
+
 def run(ctx):
     pid, quick = ctx.pid, ctx.tier == "quick"
     versioned = pid == "C02"
@@ -314,6 +376,25 @@ def run(ctx):
             rp = ctx.save_replay("violation-%d.json" % sid, {"schedule": scheds[sid], "rejected_line": line, "event": traces[sid][line],
                                                              "expected": want, "trace": traces[sid][:line + 1]})
             ctx.violation(rp, "reply contradicts the reference map: %s expected %s" % (json.dumps(pev), want))
+    # ---------------------------------------------- implementation-level validation (drift, C01 only)
+    drift = {"validated": 0, "rejected": 0, "examples": []}
+    if pid == "C01":
+        impl, owner = [], []
+        for sid in order:
+            t = impl_trace(scheds[sid], traces[sid])
+            if t:
+                impl.append(t); owner.append(sid)
+        impl, owner = impl[: (60 if quick else 1500)], owner[: (60 if quick else 1500)]
+        try:
+            rej = ctx.validate_traces("EngineTrace", "EngineTrace.cfg", impl, timeout=1200)
+            bad = sorted({ti for (ti, _, _, _) in rej})
+            drift = {"validated": len(impl), "rejected": len(bad),
+                     "examples": [{"schedule": scheds[owner[ti]]["ops"], "line": [r[1] for r in rej if r[0] == ti][0]} for ti in bad[:3]]}
+            for ti in bad[:5]:
+                print("DRIFT family=Engine schedule=%d at_event=%d (Engine.tla cannot reproduce the observed layout; verdicts unaffected)" % (owner[ti], [r[1] for r in rej if r[0] == ti][0]), flush=True)
+        except Undecided as e:
+            ctx.notes.append("implementation-level validation did not run: %s" % str(e)[:300])
+        ctx.log("impl-level: %d schedules replayed against Engine.tla's own actions, %d rejected (drift)" % (drift["validated"], drift["rejected"]))
     # every listed finding must still be demonstrable, else it silently disappears (no line printed)
     # ------------------------------------------------------- binding self-test
     ctl = None
@@ -350,6 +431,7 @@ def run(ctx):
         "m1": {"cfg": mc_cfg, "generated": m1.generated, "distinct": m1.distinct, "depth": m1.depth, "coverage_zero": m1.coverage_zero},
         "events_validated": nevents, "maintenance_actions_executed": kinds, "rejected_traces": len(rejected),
         "known_finding_hits": classes, "negative_control": "rejected as required",
+        "impl_level_validation": drift,
         "checker_cmd": "tlc -config %s Engine.tla ; tlc -config KVRefTrace.cfg KVRefTrace.tla" % mc_cfg,
     }, assumptions=[
         "process-level behaviour only; background compaction paused and replaced by forced compactions through the engine's own planner",
